@@ -95,7 +95,7 @@ pub mod shim_synchrony {
 pub mod shim_flume {
     use std::{collections::VecDeque, fmt, time::Duration};
 
-    use loom::sync::{Arc, Condvar, Mutex, atomic::{AtomicBool, Ordering}};
+    use loom::sync::{Arc, Condvar, Mutex, atomic::{AtomicBool, AtomicUsize, Ordering}};
 
     pub enum TrySendError<T> {
         Full(T),
@@ -135,6 +135,8 @@ pub mod shim_flume {
         cv: Condvar,
         /// "the idle timeout has elapsed": set by the scenario; idle receivers then time out
         time_up: AtomicBool,
+        /// live `Sender`s: at zero the channel is disconnected for the receivers
+        senders: AtomicUsize,
     }
 
     pub struct Sender<T>(Arc<Chan<T>>);
@@ -142,7 +144,17 @@ pub mod shim_flume {
 
     impl<T> Clone for Sender<T> {
         fn clone(&self) -> Self {
+            self.0.senders.fetch_add(1, Ordering::SeqCst);
             Self(self.0.clone())
+        }
+    }
+
+    impl<T> Drop for Sender<T> {
+        fn drop(&mut self) {
+            if self.0.senders.fetch_sub(1, Ordering::SeqCst) == 1 {
+                let _g = self.0.m.lock().unwrap();
+                self.0.cv.notify_all();
+            }
         }
     }
 
@@ -177,6 +189,7 @@ pub mod shim_flume {
             }),
             cv: Condvar::new(),
             time_up: AtomicBool::new(false),
+            senders: AtomicUsize::new(1),
         });
         (Sender(c.clone()), Receiver(c))
     }
@@ -236,6 +249,11 @@ pub mod shim_flume {
     }
 
     impl<T> Receiver<T> {
+        /// all senders are gone (items already handed over can still be received)
+        pub fn is_disconnected(&self) -> bool {
+            self.0.senders.load(Ordering::SeqCst) == 0
+        }
+
         pub fn recv_timeout(&self, _d: Duration) -> Result<T, RecvTimeoutError> {
             let mut g = self.0.m.lock().unwrap();
             let me = g.next_id;
@@ -262,6 +280,10 @@ pub mod shim_flume {
                 if self.0.time_up.load(Ordering::SeqCst) {
                     g.idle.retain(|id| *id != me);
                     return Err(RecvTimeoutError::Timeout);
+                }
+                if self.0.senders.load(Ordering::SeqCst) == 0 {
+                    g.idle.retain(|id| *id != me);
+                    return Err(RecvTimeoutError::Disconnected);
                 }
                 if !registered {
                     g.idle.push_back(me);
